@@ -970,6 +970,249 @@ run_wsmax(void *arg)
 	vh_fini();
 }
 
+// ---- R: RECVMAXSZ in both roles against a conforming nng sender ---------------------------------------
+// the limited socket is the listener or the dialer; messages within the limit arrive exactly, one above
+// it is never delivered and costs that connection, and traffic resumes on the next connection.
+static int g_rem_post;
+static void
+roles_pipe_cb(nng_pipe p, nng_pipe_ev ev, void *arg)
+{
+	(void) p;
+	(void) arg;
+	if (ev == NNG_PIPE_EV_REM_POST)
+		g_rem_post++;
+}
+
+static void
+run_roles(void *arg)
+{
+	int tran    = ((int) (intptr_t) arg) >> 1; // 0 tcp 1 ipc 2 ws 3 udp
+	int limdial = ((int) (intptr_t) arg) & 1;  // the limit is on the dialing socket
+	enum { R = 100 };
+	static const int OK_LEN[]  = { 0, 1, 99, 100 };
+	static const int BAD_LEN[] = { 101, 256, 5000 };
+	vs_tcp_grace_us = 1500;
+	vh_init(0);
+	g_rem_post = 0;
+	nng_socket   ls, ds;
+	nng_listener l;
+	char         url[128];
+	VH_OK(nng_pair0_open(&ls));
+	VH_OK(nng_pair0_open(&ds));
+	nng_socket X = limdial ? ds : ls, Y = limdial ? ls : ds;
+	VH_OK(nng_socket_set_size(X, NNG_OPT_RECVMAXSZ, R));
+	VH_OK(nng_socket_set_size(Y, NNG_OPT_RECVMAXSZ, 0));
+	VH_OK(nng_socket_set_ms(X, NNG_OPT_RECVTIMEO, 300));
+	VH_OK(nng_socket_set_ms(Y, NNG_OPT_SENDTIMEO, 3000));
+	VH_OK(nng_socket_set_ms(ds, NNG_OPT_RECONNMINT, 20));
+	VH_OK(nng_socket_set_ms(ds, NNG_OPT_RECONNMAXT, 20));
+	VH_OK(nng_pipe_notify(X, NNG_PIPE_EV_REM_POST, roles_pipe_cb, NULL));
+	if (tran == 1) {
+		snprintf(url, sizeof(url), "ipc:///tmp/c11_roles_%d.sock", (int) getpid());
+		VH_OK(nng_listen(ls, url, &l, 0));
+	} else {
+		int port = 0;
+		VH_OK(nng_listen(ls,
+		    tran == 0       ? "tcp://127.0.0.1:0"
+		        : tran == 2 ? "ws://127.0.0.1:0/roles"
+		                    : "udp://127.0.0.1:0",
+		    &l, 0));
+		VH_OK(nng_listener_get_int(l, NNG_OPT_BOUND_PORT, &port));
+		snprintf(url, sizeof(url),
+		    tran == 0       ? "tcp://127.0.0.1:%d"
+		        : tran == 2 ? "ws://127.0.0.1:%d/roles"
+		                    : "udp://127.0.0.1:%d",
+		    port);
+	}
+	VH_OK(nng_dial(ds, url, NULL, 0));
+	vs_settle();
+	int      ch  = vs_choose(VK_ENV, 12);
+	int      okl = OK_LEN[ch % 4], badl = BAD_LEN[ch / 4];
+	uint8_t *buf = malloc(6000);
+	for (int i = 0; i < 6000; i++)
+		buf[i] = (uint8_t) (i * 13 + 5);
+	char what[96];
+	snprintf(what, sizeof(what), "%s limit %d on the %s, sizes %d then %d", url, R,
+	    limdial ? "dialer" : "listener", okl, badl);
+	// within the limit
+	nng_msg *m;
+	VH_OK(nng_msg_alloc(&m, 0));
+	VH_OK(nng_msg_append(m, buf, (size_t) okl));
+	int rv = nng_sendmsg(Y, m, 0);
+	if (rv != 0)
+		vs_fail("C11:roles:send", "[%s] first send: %s", what, nng_strerror(rv));
+	rv = nng_recvmsg(X, &m, 0);
+	if (rv != 0)
+		vs_fail("C11:recvmax:within-limit-dropped", "[%s] %d byte message not delivered: %s",
+		    what, okl, nng_strerror(rv));
+	if (nng_msg_len(m) != (size_t) okl || memcmp(nng_msg_body(m), buf, (size_t) okl) != 0)
+		vs_fail("C11:roles:corrupted", "[%s] delivered %zu bytes", what, nng_msg_len(m));
+	nng_msg_free(m);
+	vs_case();
+	// above the limit
+	int before = g_rem_post;
+	VH_OK(nng_msg_alloc(&m, 0));
+	VH_OK(nng_msg_append(m, buf, (size_t) badl));
+	rv = nng_sendmsg(Y, m, 0);
+	if (rv != 0)
+		vs_fail("C11:roles:send", "[%s] oversize send: %s", what, nng_strerror(rv));
+	rv = nng_recvmsg(X, &m, 0);
+	if (rv == 0)
+		vs_fail("C11:recvmax:delivered", "[%s] a %zu byte message was delivered", what,
+		    nng_msg_len(m));
+	vs_settle();
+	// (a conforming SP/UDP sender drops a message above the limit the peer
+	// advertised instead of sending it: nothing crosses the wire, no closure)
+	if (g_rem_post == before && tran != 3)
+		vs_fail("C11:recvmax:not-closed",
+		    "[%s] the connection that carried the oversize message was not closed", what);
+	vs_case();
+	vs_nontrivial();
+	// control on the next connection
+	VH_OK(nng_socket_set_ms(X, NNG_OPT_RECVTIMEO, 3000));
+	int got = 0;
+	for (int attempt = 0; attempt < 5 && !got; attempt++) {
+		VH_OK(nng_msg_alloc(&m, 0));
+		VH_OK(nng_msg_append(m, "control", 7));
+		rv = nng_sendmsg(Y, m, 0);
+		if (rv != 0) {
+			nng_msg_free(m);
+			continue;
+		}
+		rv = nng_recvmsg(X, &m, 0);
+		if (rv == 0) {
+			if (nng_msg_len(m) != 7 || memcmp(nng_msg_body(m), "control", 7) != 0)
+				vs_fail("C11:roles:corrupted", "[%s] control corrupted", what);
+			nng_msg_free(m);
+			got = 1;
+		}
+	}
+	if (!got)
+		vs_fail("C11:control:delivery", "[%s] no traffic after the oversize message", what);
+	free(buf);
+	vs_outcome("roles ok");
+	nng_socket_close(ds);
+	nng_socket_close(ls);
+	if (tran == 1)
+		unlink(url + 6);
+	vh_fini();
+}
+
+// ---- US: SP/UDP data datagrams on an established connection ----------------------------------------------
+// a raw UDP peer connects (CREQ/CACK) to a PULL listener with RECVMAXSZ 16 and sends one DATA datagram
+// whose declared length L and actual payload n are enumerated: the first L bytes are delivered iff
+// L <= n and L <= RECVMAXSZ; otherwise nothing is delivered and the peer is disconnected (DISC).
+static void
+udp_hdr(uint8_t *d, int op, unsigned type, unsigned p0, unsigned p1)
+{
+	d[0] = 1;
+	d[1] = (uint8_t) op;
+	d[2] = (uint8_t) type;
+	d[3] = (uint8_t) (type >> 8);
+	d[4] = (uint8_t) p0;
+	d[5] = (uint8_t) (p0 >> 8);
+	d[6] = (uint8_t) p1;
+	d[7] = (uint8_t) (p1 >> 8);
+}
+
+static void
+run_udpsess(void *arg)
+{
+	(void) arg;
+	enum { R = 16 };
+	static const unsigned DL[] = { 0, 1, 15, 16, 17, 64, 65535 };
+	static const unsigned AL[] = { 0, 1, 15, 16, 17, 64 };
+	vs_tcp_grace_us = 1500;
+	vh_init(0);
+	nng_socket   s, c;
+	nng_listener l;
+	int          port = 0;
+	VH_OK(nng_pull0_open(&s));
+	VH_OK(nng_socket_set_size(s, NNG_OPT_RECVMAXSZ, R));
+	VH_OK(nng_socket_set_ms(s, NNG_OPT_RECVTIMEO, 200));
+	VH_OK(nng_listen(s, "udp://127.0.0.1:0", &l, 0));
+	VH_OK(nng_listener_get_int(l, NNG_OPT_BOUND_PORT, &port));
+	struct sockaddr_in sa;
+	memset(&sa, 0, sizeof(sa));
+	sa.sin_family      = AF_INET;
+	sa.sin_port        = htons((uint16_t) port);
+	sa.sin_addr.s_addr = htonl(INADDR_LOOPBACK);
+	int di = vs_choose(VK_ENV, 7);
+	for (int ai = 0; ai < 6; ai++) {
+		unsigned L = DL[di], n = AL[ai];
+		int      fd = socket(AF_INET, SOCK_DGRAM, 0);
+		uint8_t  d[128], in[256];
+		udp_hdr(d, 1 /*CREQ*/, SP_PUSH, 65000, 5);
+		sendto(fd, d, 8, 0, (struct sockaddr *) &sa, sizeof(sa));
+		vs_settle();
+		vs_sleep(5);
+		ssize_t rn = recv(fd, in, sizeof(in), MSG_DONTWAIT);
+		if (rn != 8 || in[1] != 2)
+			vs_fail("harness:udp-connect", "no CACK (%zd bytes, op %d)", rn,
+			    rn > 1 ? in[1] : -1);
+		udp_hdr(d, 0 /*DATA*/, SP_PUSH, L, 0);
+		for (unsigned i = 0; i < n; i++)
+			d[8 + i] = (uint8_t) (0x61 + i % 26);
+		sendto(fd, d, 8 + n, 0, (struct sockaddr *) &sa, sizeof(sa));
+		vs_settle();
+		vs_sleep(5);
+		vs_case();
+		vs_nontrivial();
+		char what[64];
+		snprintf(what, sizeof(what), "declared %u actual %u limit %d", L, n, R);
+		nng_msg *m  = NULL;
+		int      rv = nng_recvmsg(s, &m, 0);
+		if (L <= n && L <= R) {
+			if (rv != 0)
+				vs_fail("C11:udp:within-limit-dropped", "[%s] not delivered: %s",
+				    what, nng_strerror(rv));
+			if (nng_msg_len(m) != L || memcmp(nng_msg_body(m), d + 8, L) != 0)
+				vs_fail("C11:udp:corrupted", "[%s] delivered %zu bytes %s", what,
+				    nng_msg_len(m),
+				    vh_hex(nng_msg_body(m),
+				        nng_msg_len(m) > 12 ? 12 : nng_msg_len(m)));
+			nng_msg_free(m);
+		} else {
+			if (rv == 0)
+				vs_fail(L > R ? "C11:recvmax:delivered" : "C11:udp:truncated-delivered",
+				    "[%s] a %zu byte message was delivered", what, nng_msg_len(m));
+			rn = recv(fd, in, sizeof(in), MSG_DONTWAIT);
+			if (rn != 8 || in[1] != 3)
+				vs_fail("C11:recvmax:not-closed",
+				    "[%s] the offending UDP peer was not disconnected (%zd bytes, op %d)",
+				    what, rn, rn > 1 ? in[1] : -1);
+		}
+		// leave politely
+		udp_hdr(d, 3 /*DISC*/, SP_PUSH, 0, 0);
+		sendto(fd, d, 8, 0, (struct sockaddr *) &sa, sizeof(sa));
+		vs_settle();
+		close(fd);
+	}
+	char url[64];
+	snprintf(url, sizeof(url), "udp://127.0.0.1:%d", port);
+	VH_OK(nng_push0_open(&c));
+	VH_OK(nng_socket_set_ms(c, NNG_OPT_SENDTIMEO, 2000));
+	VH_OK(nng_socket_set_ms(s, NNG_OPT_RECVTIMEO, 2000));
+	int rv = nng_dial(c, url, NULL, 0);
+	if (rv != 0)
+		vs_fail("C11:control:connect", "udp dial after hostile data: %s",
+		    nng_strerror(rv));
+	nng_msg *m;
+	VH_OK(nng_msg_alloc(&m, 0));
+	VH_OK(nng_msg_append(m, "control", 7));
+	if (nng_sendmsg(c, m, 0) != 0)
+		vs_fail("C11:control:delivery", "udp control send failed");
+	rv = nng_recvmsg(s, &m, 0);
+	if (rv != 0 || nng_msg_len(m) != 7)
+		vs_fail("C11:control:delivery", "udp control message not delivered: %s",
+		    nng_strerror(rv));
+	nng_msg_free(m);
+	vs_outcome("udp session ok");
+	nng_socket_close(c);
+	nng_socket_close(s);
+	vh_fini();
+}
+
 static void
 explore(const char *name, void (*fn)(void *), void *arg)
 {
@@ -1042,9 +1285,19 @@ main(int argc, char **argv)
 		}
 	}
 	explore("udp-datagrams", run_udp, NULL);
+	explore("udp-session-data", run_udpsess, NULL);
 	explore("ws-upgrade-truncated", run_ws, (void *) 0);
 	explore("ws-upgrade-mangled", run_ws, (void *) 1);
 	explore("ws-recvmax-fragments", run_wsmax, NULL);
+	{
+		static const char *RN[] = { "tcp", "ipc", "ws", "udp" };
+		for (int a = 0; a < 8; a++) {
+			char name[48];
+			snprintf(name, sizeof(name), "recvmax-%s-%s", RN[a >> 1],
+			    (a & 1) ? "dialer" : "listener");
+			explore(strdup(name), run_roles, (void *) (intptr_t) a);
+		}
+	}
 	vx_note("space",
 	    "stream transports socket://, ipc, tcp x {pair1-poly, rep}: truncation "
 	    "at every offset of handshake+2 frames; every value of every handshake "
